@@ -131,10 +131,55 @@ def _sink(stmts):
     return out
 
 
+def _loop_returns(stmts, counter):
+    """A search loop that returns from inside:
+
+        for x in it:                      for x in it:
+            ...return A          ==           ...<r> = A; break
+        <rest ending in return B>         else:
+                                              <rest with its tail return turned into <r> = B>
+                                          return <r>
+
+    Only for a top-level `for` without else whose body contains no break and no nested loop with a return, followed by
+    statements whose returns are in tail position."""
+    for i, st in enumerate(stmts):
+        if not isinstance(st, ast.For) or st.orelse:
+            continue
+        inner_returns = [x for b in st.body for x in ast.walk(b) if isinstance(x, ast.Return)]
+        if not inner_returns:
+            continue
+        if any(isinstance(x, (ast.Break, ast.For, ast.While, ast.AsyncFor, ast.Try, ast.With, ast.FunctionDef, ast.Lambda)) for b in st.body for x in ast.walk(b)):
+            return None
+        rest = _sink(stmts[i + 1:])
+        t = _tail_returns(rest)
+        n_rest = sum(1 for b in rest for x in ast.walk(b) if isinstance(x, ast.Return))
+        if t is None or t != n_rest:
+            return None
+        counter[0] += 1
+        r = "_found%d" % counter[0]
+
+        def make(v, at):
+            a_ = ast.Assign(targets=[ast.Name(id=r, ctx=ast.Store())], value=v if v is not None else ast.copy_location(ast.Constant(value=None), at))
+            ast.copy_location(a_.targets[0], at)
+            return ast.copy_location(a_, at)
+
+        class R(ast.NodeTransformer):
+            def visit_Return(self, node):
+                return [make(node.value, node), ast.copy_location(ast.Break(), node)]
+        st.body = [y for b in st.body for y in (lambda z: z if isinstance(z, list) else [z])(R().visit(b))]
+        st.orelse = _convert_tail(rest, make, st)
+        final = ast.copy_location(ast.Return(value=ast.copy_location(ast.Name(id=r, ctx=ast.Load()), st)), st)
+        return stmts[:i] + [st, final]
+    return stmts
+
+
 def _prepared_body(fn):
     body = [copy.deepcopy(s) for s in fn.body]
     if body and isinstance(body[0], ast.Expr) and isinstance(body[0].value, ast.Constant) and isinstance(body[0].value.value, str):
         body = body[1:]
+    lr = _loop_returns(body, [0])
+    if lr is not None:
+        body = lr
     return _sink(body) or [ast.copy_location(ast.Pass(), fn)]
 
 
@@ -159,8 +204,9 @@ def _eligible(fn, decorators_ok=("staticmethod",)):
         return False
     if any(isinstance(x, (ast.FunctionDef, ast.AsyncFunctionDef, ast.ClassDef)) for x in own):
         return False  # helpers defining closures are left alone
-    n_ret = sum(1 for x in own if isinstance(x, ast.Return))
-    t = _tail_returns(_prepared_body(fn))
+    prepared = _prepared_body(fn)
+    n_ret = sum(1 for b in prepared for x in ast.walk(b) if isinstance(x, ast.Return))
+    t = _tail_returns(prepared)
     if t is None or t != n_ret:
         return False
     # not (directly) recursive
@@ -339,12 +385,14 @@ class Inliner:
                 if p not in defaults:
                     return None
                 bound[p] = defaults[p]
+        body = _prepared_body(helper)
         locals_ = set()
-        for x in _own_walk(helper):
-            if isinstance(x, ast.Name) and isinstance(x.ctx, (ast.Store, ast.Del)):
-                locals_.add(x.id)
-            elif isinstance(x, ast.ExceptHandler) and x.name:
-                locals_.add(x.name)
+        for b_ in body:
+            for x in ast.walk(b_):
+                if isinstance(x, ast.Name) and isinstance(x.ctx, (ast.Store, ast.Del)):
+                    locals_.add(x.id)
+                elif isinstance(x, ast.ExceptHandler) and x.name:
+                    locals_.add(x.name)
         rebound_in_helper = {x.id for x in _own_walk(helper) if isinstance(x, ast.Name) and isinstance(x.ctx, (ast.Store, ast.Del))}
         for p in params + kwonly:
             if isinstance(bound[p], (ast.Name, ast.Constant)) and p not in rebound_in_helper:
@@ -360,7 +408,6 @@ class Inliner:
         for l in locals_:
             if l not in mapping:
                 mapping[l] = l + suf
-        body = _prepared_body(helper)
         ren = _Rename(mapping)
         body = [ren.visit(s) for s in body]
         ret = "_ret" + suf
